@@ -122,6 +122,43 @@ def _cblist(ctx, cfg):
                 r = getattr(cl, ev)(*args)
                 ctx.holds("CallbackList.%s dispatches once to every callback in list order with the same arguments, stop requested or not[n=%d stop=%s]" % (ev, ncb, stop),
                           r is None and log == [(i, ev, args) for i in range(ncb)] and S.writes == [], str(log)[:200])
+    # user callbacks are opaque objects: they may compare equal to each other (dataclasses with the same settings), be
+    # falsy, have a length of 0 or be unhashable, and the same object may be listed twice - every entry of the list
+    # receives every event
+    class Odd(Rec):
+        __hash__ = None
+
+        def __eq__(self, other):
+            return True
+
+        def __ne__(self, other):
+            return False
+
+        def __bool__(self):
+            return False
+
+        def __len__(self):
+            return 0
+    o0, o1 = Odd("o0"), Odd("o1")
+    for how in ("constructor", "append", "insert", "concatenation"):
+        if how == "constructor":
+            cl = CallbackList([o0, o1, o0])
+        elif how == "append":
+            cl = CallbackList([o0])
+            cl.append(o1)
+            cl.append(o0)
+        elif how == "insert":
+            cl = CallbackList([o0])
+            cl.insert(0, o1)
+            cl.insert(0, o0)
+        else:
+            cl = CallbackList([o0]) + CallbackList([o1, o0])
+        S = St(False)
+        for ev, args in (("on_train_start", (S,)), ("on_batch_end", (S, 4, 2)), ("on_epoch_end", (S, 4)), ("on_train_end", (S,))):
+            del log[:]
+            getattr(cl, ev)(*args)
+            ctx.holds("CallbackList.%s reaches every entry of the list in order: callbacks that compare equal, are falsy, unhashable, or listed twice [built by %s]" % (ev, how),
+                      [x[0] for x in log] == ["o0", "o1", "o0"] and all(x[1] == ev and x[2] == args for x in log), str([x[0] for x in log]))
     # a stop requested by an earlier callback during the dispatch must not hide the event from the later ones
     for ev, args in (("on_batch_end", (4, 2)), ("on_epoch_end", (4,)), ("on_epoch_start", (4,)), ("on_batch_start", (4, 2))):
         S = St(False)
